@@ -83,7 +83,6 @@ HARNESSES = [
 VERUS_UNITS = []
 
 # what each property cannot get from this family here (goes verbatim into the evidence)
-NOT_COVERED = {}
 
 TRUSTED_COMMON = [
     "Kani 0.68 / CBMC 6.11 / CaDiCaL and their models of the Rust allocator, memcpy/memset and core library",
@@ -100,7 +99,49 @@ MANIFEST_NOTES = (
     "commits (known_findings.txt)."
 )
 
+COMPOSITION_GAP_DEC = ("composition of the decoder's state-machine arms over a whole run, termination of the automaton, and the unbounded "
+                       "inner loops (DecodeLitlen / decompress_fast) are NOT proved: neither Verus (break-with-value, closures) nor Kani "
+                       "(25 min without result on 3 symbolic input bytes) can take decompress_with_limit whole")
+COMPOSITION_GAP_ENC = ("the three compressor loops (compress_normal / compress_fast / compress_stored), dynamic Huffman construction and block "
+                       "cutting are NOT proved as a whole: that the emitted token sequence expands to the input is assumed")
+
+NOT_COVERED = {
+    "C01": [COMPOSITION_GAP_ENC, COMPOSITION_GAP_DEC, "hence the round trip itself is not proved end to end; what is proved: every stored length/distance/literal re-decodes to itself through the real emission code against the RFC tables, level clamp, level 0 <=> stored route, fixed code == RFC"],
+    "C02": [COMPOSITION_GAP_ENC, "saved lazy match carried across an early return; callback (dyn FnMut) sink; decodability of the concatenated output (whole-history)"],
+    "C03": [COMPOSITION_GAP_DEC, "Huffman table construction (init_tree) for symbolic code-length sets: no tractable formulation found (DESIGN.md §3.1 note)"],
+    "C04": [COMPOSITION_GAP_DEC, "init_tree over-subscription/incompleteness verdict for symbolic length sets", "'whenever decoding reports completion the consumed bytes form a valid stream' as a whole-run statement"],
+    "C05": [COMPOSITION_GAP_DEC, "termination (no ranking function proved)"],
+    "C06": [COMPOSITION_GAP_DEC, "the cross-call fact that the end-of-stream rewind is never clamped (history invariant)"],
+    "C07": ["the relational statement itself (two schedules give equal results) is not mechanised; proved are the single-run facts it follows from: starved readers leave the unread-bit view and live registers unchanged, wrapper hand-off bookkeeping", COMPOSITION_GAP_DEC],
+    "C08": [COMPOSITION_GAP_DEC, "union of per-arm write frames over a run; decompress_fast's 259-byte guard"],
+    "C09": ["Adler-32 algorithm itself beyond the bounded check (dependency adler2)", COMPOSITION_GAP_ENC, COMPOSITION_GAP_DEC],
+    "C10": [COMPOSITION_GAP_ENC, "acceptance by an independent decoder end to end; dynamic-block header construction (start_dynamic_block, optimize_table dynamic); the compression-ratio clause (quantitative whole-run statement: not applicable to this family)"],
+    "C11": ["byte-level behaviour of compress_fast's match search beyond the modelled dictionary reads; find_match internals (its distance bound is the contract model's clause)"],
+    "C12": [COMPOSITION_GAP_ENC, "prefix decodability at a flush point (needs the missing composition)"],
+    "C13": ["delivered bytes are a prefix of the true plaintext (needs the engine)", "termination of the engine; M-decompress clauses are assumptions wherever the decoder units do not prove them"],
+    "C14": ["progress inside the engine (M-compress progress clause is assumed)"],
+    "C16": ["checksum algorithms live in dependencies (adler2, simd-adler32, crc32fast); only bounded lengths are checked; SIMD build not analysed"],
+}
+
 PROPERTY_META = {
+    "C01": dict(text="component contracts the round trip depends on, each discharged for all inputs of its domain (all 256 lengths x 32768 distances x bit alignments through the real record_match/compress_lz_codes against RFC tables; level clamp over all u8 levels; routing); the composition through the compressor loops and decoder automaton is assumed and listed",
+                note="Proof level applies to the listed component obligations only; see evidence coverage.not_covered."),
+    "C02": dict(text="dispatch/prologue/epilogue of compress() for every configuration, history and flush (counts, pending-output bookkeeping, Finish sticky, final flush gating), flush_block marker emission with the carried partial byte, deflate() wrapper protocol; engines behind contract models",
+                note="Engine loops are contract models (assumed)."),
+    "C03": dict(text="decoder constants and fixed code equal the RFC for every index; zlib header acceptance exact; stored/dynamic/compressed-block arms and copy routines under contract where built",
+                note="See not_covered: automaton composition and init_tree."),
+    "C04": dict(text="rejection rules as exact per-function/per-arm contracts (zlib header iff-valid over all 65536 headers x flags x ring sizes; failure states absorbing; end_of_input truthful)", note=""),
+    "C05": dict(text="inductive-invariant style: entry validation (BadParam without touching state), failure states absorbing, every harness is also a no-panic/no-overflow/in-bounds proof of the real code it executes (Kani checks all of those by default)", note=""),
+    "C06": dict(text="undo_bytes contract, DoneForever consumes nothing more, wrapper consumed == sum of engine counts", note=""),
+    "C07": dict(text="single-run facts that imply suspend/resume independence, per function; wrapper ring hand-off", note=""),
+    "C08": dict(text="frame conditions (bytes outside the granted window unchanged) and truthful counts on every path that is under contract", note=""),
+    "C09": dict(text="header_from_flags valid per RFC 1950 for all flag words x window bits; validate_zlib_header exact; header once at block 0; trailer = big-endian running Adler; Adler over exactly the consumed prefix; mismatch/ignore verdict table", note=""),
+    "C10": dict(text="strategy/level -> flags table exact; routing (RLE/filter never on the fast path — this obligation found a real defect, fixed); block/flush markers and BFINAL exactly on Finish; every length/distance token encodes per RFC", note=""),
+    "C11": dict(text="configuration lemma over all (format, level, strategy, window_bits): declared window == 2^max(w,8), w<12 => RLE/stored/no matching; routing proof; distance caps at the matcher call sites", note=""),
+    "C12": dict(text="marker bytes per flush mode for all alignments/configurations, byte alignment, full flush clears hash chains and dictionary size, NoSync emits nothing", note=""),
+    "C13": dict(text="the wrapper's whole decision table over fully symbolic wrapper state, flush, and engine results (M-decompress contract model)", note=""),
+    "C14": dict(text="the wrapper's whole decision table over symbolic engine results (M-compress contract model) plus compress() prologue latching", note=""),
+    "C16": dict(text="running-checksum plumbing (which bytes are fed, when) proved; the algorithms themselves bounded", category="proof", note=""),
     "C20": dict(not_applicable=True, na_reason=(
         "facts about program text and the trait solver (#![forbid(unsafe_code)], no_std builds, auto traits): no "
         "pre/postcondition expresses them and neither Verus nor Kani decides them; the compiler itself would, which is a "
